@@ -6,6 +6,7 @@ CONSTANTS
   MaxMsg = 1
   MaxTotal = 4
   MaxClose = 4
+  Glitches = {"dataerr", "temperr", "shortwrite"}
   Bufs = {1, 2}
 INIT Init
 NEXT Next
